@@ -389,6 +389,8 @@ def cases(tier, seed):
 
       def thunk(name=name, kw=kw, desc=desc, indexed=indexed):
         with _quiet():
+          import copy
+          snap = {k: copy.deepcopy(v) for k, v in kw.items() if isinstance(v, np.ndarray)}
           est = getattr(ml, name)(**kw)
           try:
             c = clone(est)
@@ -408,8 +410,41 @@ def cases(tier, seed):
           if bad or not np.array_equal(est.components_, c.components_):
             return dict(tag='clone-equivalent', input=desc, observed='estimator and its clone, fitted on the same data, differ in: %s'
                         % ', '.join(bad or ['components_']), signature='%s clone fits to another model' % name)
+          # "the value passed at construction is stored UNTOUCHED and returned by get_params as the identical object": also after a fit
+          after = est.get_params(deep=False)
+          for k, v0 in snap.items():
+            if after.get(k) is not kw[k]:
+              return dict(tag='parameter-stored-untouched', input=desc, observed='after fit, get_params()[%r] is no longer the object passed' % k,
+                          signature='%s.%s replaced by fit' % (name, k))
+            if not (np.asarray(after[k]).shape == v0.shape and np.asarray(after[k]).tobytes() == v0.tobytes()):
+              return dict(tag='parameter-stored-untouched', input=desc,
+                          observed='after fit, get_params()[%r] no longer holds the values passed (max abs change %.3g)'
+                          % (k, float(np.max(np.abs(np.asarray(after[k], dtype=float) - v0)))), signature='%s.%s changed by fit' % (name, k))
         return None
       yield desc, ('clone', name), thunk
+
+    # set_params on a used estimator: the new value is what the estimator uses (it behaves like a clone built from its parameters)
+    def swap(name=name):
+      with _quiet():
+        A = D.X.copy()
+        B = D.X.dot(np.array([[0.6, -0.8, 0.0], [0.8, 0.6, 0.0], [0.0, 0.0, 1.0]])) * np.array([2.0, 1.0, 0.5]) + 1.0
+        inp = 'est = %s(preprocessor=A, ...).fit(<indices>); est.set_params(preprocessor=B); est.fit(<indices>)  vs  clone(est).fit(<indices>)' % name
+        try:
+          est = getattr(ml, name)(**dict(FAST[name], preprocessor=A))
+          est.fit(*fit_args(name, D, True))
+          est.set_params(preprocessor=B)
+          if est.get_params(deep=False)['preprocessor'] is not B:
+            return dict(tag='set_params-roundtrip', input=inp, observed='get_params() does not return the object given to set_params', signature='%s set_params preprocessor' % name)
+          c = clone(est)
+          est.fit(*fit_args(name, D, True))
+          c.fit(*fit_args(name, D, True))
+        except Exception as e:
+          return dict(tag='clone-equivalent', input=inp, observed='raised ' + _raised(e), signature='%s set_params sequence raises' % name)
+        if not np.array_equal(est.components_, c.components_):
+          return dict(tag='clone-equivalent', input=inp, observed='after set_params(preprocessor=B) the refitted estimator and its clone differ: max |dL| = %.3g'
+                      % float(np.max(np.abs(est.components_ - c.components_))), signature='%s ignores set_params(preprocessor=...) after a fit' % name)
+      return None
+    yield 'set_params(preprocessor=...) on a fitted %s, then refit vs clone' % name, ('clone', 'set_params', name), swap
 
     def seq(name=name):
       with _quiet():
